@@ -44,6 +44,21 @@ def pair_matrix(roles, f, to_string_key=None, str_to_number_key=None):
             return None
         restrict = P.specialise_unit(roles, f.key, assume, assume_bool=_distinct_refs)
         res[(v1, v2)] = classify(roles, f, unit, restrict, v1, v2, to_string_key, str_to_number_key)
+    # a pair that only re-dispatches with its operands unchanged (typically swapped: `(String, Number) => eq(second, first)`)
+    # is decided as the pair it re-dispatches to
+    for _ in range(2):
+        for k, o in list(res.items()):
+            recs = o.detail.get("rec") or []
+            if o.kind.startswith("REC:") and recs and all(not conv for (_n, conv, _b, _bi) in recs):
+                targets = {n for (n, conv, _b, _bi) in recs}
+                if len(targets) == 1:
+                    tk = next(iter(targets))
+                    if tk != k and tk in res and not res[tk].kind.startswith("REC:"):
+                        o2 = Outcome()
+                        o2.kind = res[tk].kind
+                        o2.detail = dict(res[tk].detail)
+                        o2.detail["via"] = "re-dispatch to %s,%s" % tk
+                        res[k] = o2
     return res
 
 
@@ -76,6 +91,8 @@ def classify(roles, f, unit, restrict, v1, v2, to_string_key, str_to_number_key,
                 e = strip_refs(b.xtrace(t["args"][p - 1]))
                 if e == ("arg", p):
                     nxt.append(cur)
+                elif e == ("arg", 3 - p) and b.key == f.key:
+                    nxt.append(v2 if p == 1 else v1)   # the other operand, handed on unchanged (a swap)
                 elif e[0] == "agg" and e[1].get("adt") == VALUE:
                     nxt.append(e[1]["variant"])
                     inner = strip_refs(e[2][0]) if e[2] else None
